@@ -8,7 +8,7 @@ from .. import sqlt
 from ..execmodel import ExecHooks, FullHooks, descriptors, lit, make_session, node, table
 from ..interp import Hooks, explore
 from ..values import Const, Lst, NodeV, Str, Sym, tagof
-from .c02 import rule_keyword_compare
+from .c02 import rule_ident_compare, rule_keyword_compare
 from .common import text_of
 
 EXPLANATION = (
@@ -200,6 +200,7 @@ def rule_lifetime_and_bracket(ctx):
 
 RULES = [
     ("C12.a", rule_keyword_compare, ("quick", "thorough")),
+    ("C12.a2", rule_ident_compare, ("quick", "thorough")),
     ("C12.b", rule_ladders, ("quick", "thorough")),
     ("C12.d", rule_lifetime_and_bracket, ("quick", "thorough")),
 ]
